@@ -433,7 +433,11 @@ class Interp:
                 left = right
             return True
         if isinstance(e, ast.IfExp):
-            return self.ev(e.body if self.truth(self.ev(e.test, env), e.test) else e.orelse, env)
+            tv = self.ev(e.test, env)
+            if isinstance(tv, (BV, Opaque)) and "__ifexp__" in self.prims:
+                # symbolic condition: both arms are evaluated and merged by the client's if-then-else model
+                return self.prims["__ifexp__"](tv, self.ev(e.body, env), self.ev(e.orelse, env))
+            return self.ev(e.body if self.truth(tv, e.test) else e.orelse, env)
         if isinstance(e, ast.Lambda):
             return Closure(e, env, self)
         if isinstance(e, (ast.ListComp, ast.GeneratorExp)):
